@@ -87,7 +87,7 @@ impl<'a> Observer for Obs09<'a> {
         well_formed(snap, screen, true, 0, "construction")
     }
     fn step(&mut self, ctx: &StepCtx) -> Result<(), Violation> {
-        let with_display = !self.big || ctx.idx % 8 == 0;
+        let with_display = if self.big { ctx.idx % 16 == 0 } else { ctx.idx % 3 == 0 };
         if ctx.post.x == ctx.post.columns {
             self.cov.hit("probe_cursor_in_pending_wrap_column");
         }
@@ -132,7 +132,7 @@ impl Property for C09 {
     }
     fn assumptions(&self) -> Vec<&'static str> {
         vec![
-            "display() is called on a harness-side copy rebuilt from the public fields (every step on small screens, every 8th on screens > 600 cells)",
+            "display() is called on a harness-side copy rebuilt from the public fields (after construction, then every 3rd step on small screens, every 16th on screens > 600 cells)",
             "hexadecimal colour = any non-empty string of hex digits (strictness is C08's job)",
         ]
     }
@@ -171,6 +171,7 @@ struct Obs10<'a> {
     /// screen B: same history plus display() calls at `points`
     twin: Screen,
     points: Vec<u32>,
+    twin_prev: Option<Snapshot>,
 }
 
 fn check_display_faithful(screen: &Screen, at: u64, who: &str) -> Result<(), Violation> {
@@ -242,8 +243,10 @@ impl<'a> Observer for Obs10<'a> {
         if matches!(ctx.op, Op::Display | Op::Paint) {
             check_display_faithful(ctx.screen, ctx.idx, "the primary screen")?;
         }
-        let tw = Snapshot::take(&self.twin);
-        if let Some(d) = ctx.post.diff(&tw, &[]) {
+        let tw = Snapshot::take_from(&self.twin, self.twin_prev.as_ref());
+        let d = ctx.post.diff(&tw, &[]);
+        self.twin_prev = Some(tw);
+        if let Some(d) = d {
             return Err(Violation::new(
                 "C10",
                 "C10/display_changes_later_behaviour",
@@ -317,7 +320,7 @@ impl Property for C10 {
     }
     fn check(&self, trace: &Trace, cov: &mut Coverage) -> Result<(), Violation> {
         let run_with = |points: Vec<u32>, cov: &mut Coverage| -> Result<exec::RunStats, Violation> {
-            let mut obs = Obs10 { cov, twin: Screen::new(trace.columns, trace.lines), points };
+            let mut obs = Obs10 { cov, twin: Screen::new(trace.columns, trace.lines), points, twin_prev: None };
             exec::run_q(trace, &mut obs).map(|x| x.0)
         };
         if trace.extra.first() == Some(&u32::MAX) {
@@ -351,9 +354,13 @@ pub struct C15;
 struct Obs15<'a> {
     cov: &'a mut Coverage,
     twin: Option<Screen>,
+    twin_prev: Option<Snapshot>,
 }
 
 impl<'a> Observer for Obs15<'a> {
+    fn needs_snap(&self, _actor: Actor, op: &Op) -> bool {
+        self.twin.is_some() || op.lower() == Op::Reset
+    }
     fn step(&mut self, ctx: &StepCtx) -> Result<(), Violation> {
         let low = ctx.op.lower();
         if low == Op::Reset {
@@ -395,8 +402,10 @@ impl<'a> Observer for Obs15<'a> {
             }
             ctx.op.apply(tw);
             self.cov.hit("continuation_steps_compared");
-            let ts = Snapshot::take(tw);
-            if let Some(d) = ctx.post.diff(&ts, &["savepoints"]) {
+            let ts = Snapshot::take_from(tw, self.twin_prev.as_ref());
+            let d = ctx.post.diff(&ts, &["savepoints"]);
+            self.twin_prev = Some(ts);
+            if let Some(d) = d {
                 return Err(Violation::new(
                     "C15",
                     "C15/continuation_diverges",
@@ -469,7 +478,7 @@ impl Property for C15 {
         h
     }
     fn check(&self, trace: &Trace, cov: &mut Coverage) -> Result<(), Violation> {
-        let mut obs = Obs15 { cov, twin: None };
+        let mut obs = Obs15 { cov, twin: None, twin_prev: None };
         let stats = exec::run_q(trace, &mut obs).map(|x| x.0)?;
         common_cov(cov, &stats);
         Ok(())
